@@ -1379,10 +1379,10 @@ func (o *ovsdbClient) handleInactivityProbes() {
 func (o *ovsdbClient) handleDisconnectNotification() {
 	<-o.rpcClient.DisconnectNotify()
 	// close the stopCh, which will stop the cache event processor
+	// (stopCh ends the inactivity probe; trafficSeen is left open: a
+	// Transact whose reply arrived just before the connection went may still
+	// signal on it)
 	close(o.stopCh)
-	if o.trafficSeen != nil {
-		close(o.trafficSeen)
-	}
 	o.metrics.numDisconnects.Inc()
 	// wait for client related handlers to shutdown
 	o.handlerShutdown.Wait()
